@@ -8,6 +8,16 @@ CLAIMED = {
    note="Assumes: go/ssa faithful, solver soundness. Modulus != 0 is a precondition pushed to callers.",
    tech="weakest-precondition VCs over go/ssa, QF_BV 64-bit, discharged by z3/cvc5",
    ref="DESIGN.md §4 C10"),
+ "C02": dict(
+   text="Proof (unbounded): the index is verified against the finite-map view contents: id -> vertex spread over 16 shards. storeVertex/removeVertex/Get/GetVertex/Insert/Remove have exact postconditions (exact errors, nothing else changes, counters move by exactly 1 and by bytesOf(item) in wrap-around uint64 arithmetic incl. the two's-complement decrement), the partition apply functions insert/update/delete and their batch forms are verified on top of them, including the metadata merge of update (new keys win, old keys kept, nothing else) and the outcome value handed to Notify.",
+   note="Assumed: Metadata.bytesSize is an uninterpreted function of the map (determinism, not the sum); float link estimate in BytesSize not covered; 'bytesSize equals the sum over live items' follows from the per-operation deltas by the induction over histories (meta-argument); graph maintenance is covered only through its frame (whole-family modifies for links and queue internals); safety side-conditions of the graph code are owned by C01/C12; sequential semantics.",
+   tech="contract-based deductive verification (functional contracts against a map spec, frames, loop invariants over map iteration), SMT",
+   ref="DESIGN.md §4 C02"),
+ "C04": dict(
+   text="Proof (unbounded) of the apply half: partition.process dispatches every well-formed entry to an apply function whose postcondition determines the new contents and the outcome as a function of (old contents, entry) only - map iteration order, levels, links and entry point cannot influence them by the frame contracts; apply returns nil and notifies exactly once. Batch forms: per-id outcome facts and untouched ids outside the batch.",
+   note="Assumed: well-formedness of the decoded entry (16-byte ids, level >= 0, own metadata map) - establishing it is C12's obligation on proposers; proto.Unmarshal and uuid.FromBytes contracts; the snapshot half (restore(snapshot(s)) = s) is C08's subject and is not claimed here; the step from per-entry determinism to replica equality is the standard induction over the log (not machine-checked).",
+   tech="contract-based deductive verification, ghost capture of the notified outcome, SMT",
+   ref="DESIGN.md §4 C04"),
  "C16": dict(
    text="Proof (unbounded in N, R, P and in the shuffle): every partition gets exactly min(R,N) distinct member ids, and no placement shares storage with the shuffle buffer or another placement. rand.Shuffle is an assumed contract (calls swap(i,j), 0<=i,j<n, any number of times); the swap closure is verified in place against a caller-supplied invariant.",
    note="Assumed: rand.Shuffle contract; sequential semantics; independence is proved in the sufficient form 'results do not alias the buffer or each other'.",
